@@ -40,7 +40,13 @@ func cheapBias(r interface{ Intn(int) int }, p float64, withP bool) M {
 func pick2(r interface{ Intn(int) int }, xs []string) string { return xs[r.Intn(len(xs))] }
 
 func disabledJunk(r interface{ Intn(int) int }) M {
-	switch r.Intn(3) {
+	switch r.Intn(6) {
+	case 3:
+		return M{"disabled": true} // no name at all: a disabled entry is not looked at
+	case 4:
+		return M{"name": "", "disabled": true, "props": M{"ratio": 0.5}}
+	case 5:
+		return M{"name": "  ", "disabled": true}
 	case 0:
 		return M{"name": "noSuchBias", "disabled": true, "props": M{"x": 1}}
 	case 1:
